@@ -336,7 +336,10 @@ pub fn judge_once(obs: &Outcome, op: Op, args: &[&Opnd]) -> Option<(String, Stri
         match outcome_num(obs) {
             Some(SNum::Real(bits)) => {
                 let x = f32::from_bits(bits);
-                if cands.iter().any(|c| same_f32(*c, x) || (*c == 0.0 && x == 0.0)) {
+                // the sign of a zero result is not pinned for the n-ary operators (the unit they start from is exact 0 / 1,
+                // and (- 0.0) is computed as 0 - 0.0); it is pinned for abs, floor, ceiling, floor-quotient, floor-remainder
+                let zero_sign_free = matches!(op, Op::Add | Op::Sub | Op::Mul | Op::Div);
+                if cands.iter().any(|c| same_f32(*c, x) || (zero_sign_free && *c == 0.0 && x == 0.0)) {
                     None
                 } else {
                     Some((
